@@ -21,14 +21,18 @@ fn space_for(tier: Tier) -> (Space, usize) {
             s.ast("ALTC", 5, 64);
             s.ast_range("LP", 1, 3, 32, 5);
             s.ast_range("ALT", 1, 3, 32, 4);
-            s.ast_range("FX", 1, 4, 32, 6).ast_range("HI", 1, 4, 32, 4);
+            s.ast_range("FX", 1, 4, 32, 6).ast_range("HI", 1, 4, 32, 4).ast_range("DUP", 1, 4, 16, 4);
             (s, 3)
         }
         Tier::Thorough => {
             s.ast("K", 5, 64).ast("U", 5, 64).ast("CL", 4, 64).ast("GC", 5, 64).ast("GCM", 5, 64).ast("GCE", 4, 64).ast("ALTC", 6, 64);
             s.ast_range("LP", 1, 4, 32, 6);
             s.ast_range("ALT", 1, 4, 32, 4);
-            s.ast_range("FX", 1, 4, 32, 6).ast_range("HI", 1, 4, 32, 4);
+            s.ast_range("FX", 1, 4, 32, 6).ast_range("HI", 1, 4, 32, 4).ast_range("DUP", 1, 4, 16, 4);
+            // deeper / longer layers restricted to patterns without a quantifier over a
+            // possibly-empty body and without nested quantifiers
+            s.ast_range("K", 6, 6, 512, 203).ast_range("CL", 5, 5, 128, 203).ast_range("GC", 6, 6, 256, 204);
+            s.ast_range("KL", 1, 3, 16, 208).ast_range("KL", 4, 4, 32, 206);
             (s, 4)
         }
     }
@@ -64,7 +68,9 @@ impl Check for C02 {
             space::SegKind::Ast { scope, .. } => crate::gen::scope(scope).sigma,
             _ => unreachable!(),
         };
-        let maxlen = if seg.param > 0 { seg.param } else { maxlen };
+        // layer parameter: input-length bound + 100 * restriction (see C01)
+        let restriction = seg.param / 100;
+        let maxlen = if seg.param % 100 > 0 { seg.param % 100 } else { maxlen };
         let inputs = all_strings(&sigma, maxlen);
         let inputs_c: Vec<Vec<char>> = inputs.iter().map(|s| s.chars().collect()).collect();
         space::for_each_text(seg, lo, hi, &mut |_i, text| {
@@ -73,6 +79,10 @@ impl Check for C02 {
                 None => return,
             };
             if parsed.ast.has_backref() {
+                return;
+            }
+            if (restriction >= 1 && parsed.ast.has_nullable_loop()) || (restriction >= 2 && parsed.ast.quant_depth() >= 2) {
+                out.inc("restricted_layer_skipped");
                 return;
             }
             let strict = !parsed.ast.has_nullable_loop();
